@@ -16,10 +16,26 @@ Definition execution (e : nat -> state) : Prop :=
 Definition can_progress (s : state) (t : tid) : Prop :=
   exists a s', step N parent s t a = Some s' /\ s' <> s.
 
-(** weak fairness: a thread that can make progress from some point on forever eventually takes
-    a state-changing transition *)
+(** thread t takes a state-changing transition at position k of the execution *)
+Definition takes_step (e : nat -> state) (t : tid) (k : nat) : Prop :=
+  exists a, step N parent (e k) t a = Some (e (S k)) /\ e (S k) <> e k.
+
+(** weak fairness (justice): no thread can be able to make progress continuously from some
+    point on without ever doing so -- from every position there is a later one at which the
+    thread either cannot make progress or takes a state-changing transition.  (Classically
+    this is the same as "continuously able to progress from some point on implies a later
+    transition"; the form below is the one a constructive proof can use, and it implies the
+    other one, [weakly_fair_impl].) *)
 Definition weakly_fair (e : nat -> state) : Prop :=
+  forall t i, t <= N -> exists k, i <= k /\ (~ can_progress (e k) t \/ takes_step e t k).
+
+Lemma weakly_fair_impl : forall e, weakly_fair e ->
   forall t i, t <= N -> (forall k, i <= k -> can_progress (e k) t) ->
   exists k a, i <= k /\ step N parent (e k) t a = Some (e (S k)) /\ e (S k) <> e k.
+Proof.
+  intros e F t i Ht H. destruct (F t i Ht) as (k & Hk & [X|(a & Ha & Hn)]).
+  - exfalso. apply X. auto.
+  - exists k, a. auto.
+Qed.
 
 End Live.
